@@ -1,8 +1,8 @@
 \* spec mutation: newStateFromNode drops markedForDeletion
 \* TLC must reject it; the witness history is printed (BEH) and replayed on the real code
 CONSTANTS NodeNames = {"n1"}  ClaimNames = {"c1"}  PodKeys = {"p1"}  Pids = {"i1"}  Pools = {"a"}
-          PortNames = {"80", "81"}
-          Defects = {"markCarry"}  MaxMut = 3  MaxDup = 1  MaxLen = 1000  WithTerm = FALSE  WithRestart = FALSE  PodShapes = {"std"}  MaxPend = 100
+          PortNames = {"80", "81", "82"}
+          Defects = {"markCarry"}  MaxMut = 3  MaxDup = 1  MaxLen = 1000  WithTerm = FALSE  WithRestart = FALSE  PodShapes = {"std"}  Start = "empty"  MaxFail = 0  MaxPend = 100
 SPECIFICATION Spec
 VIEW view
 INVARIANTS Inv_C11_NoPanic W_C11_nodes W_C11_requests W_C11_daemonRequests W_C11_hostPorts W_C11_volumes W_C11_disruptionCost
